@@ -115,7 +115,7 @@ func C08(tier string) int {
 		Prop: "C08", Level: "fault_enumeration", Scopes: []string{"c08-life", "c08-grow"},
 		Rule:        "explicit-state exploration of programs (write transactions with page-freeing, file-growing and bucket-deleting bodies, an optional reader held across, rollbacks, reopen) in which, at every state with an open write transaction, the commit is executed once cleanly to count its I/O calls and then once per call index k and failure shape (write: fail / store first sector then fail; fdatasync, fsync, truncate, mmap: fail), one failure per run; after the failure: Commit returned an error, fresh and held read transactions dump the expected version, page accounting / Stats / Tx.Check are exact, every write is checked by the C06 monitor, the exploration continues with follow-up transactions and reopen, and the whole execution runs under the controlled scheduler so that an unreleased lock is a deadlock verdict. Which clause applies (strict pre-state, or the final-sync exception) is decided from the file with the independent decoder. distinct_nontrivial = distinct states reached",
 		Assumptions: []string{"one injected failure per execution, as the property states", "after a failed mmap the documented ErrInvalidMapping is accepted until reopen"},
-		Quick:       100 * time.Second, Thorough: 30 * time.Minute,
+		Quick:       100 * time.Second, Thorough: 10 * time.Minute,
 		Cov: func(total *hx.Stats, cov map[string]interface{}) {
 			cov["evaluations"] = total.Transitions
 			cov["distinct_nontrivial"] = total.States
